@@ -73,3 +73,27 @@ def doc_has(failure, elements=(), attributes=()):
     """C09 (a): the generated document contains one of the element names / attribute names"""
     inp = failure['input']
     return bool(set(inp.get('elements', [])) & set(elements)) or bool(set(inp.get('attributes', [])) & set(attributes))
+
+
+def c09_only_long_numbers(failure):
+    """every missing / changed fact is a number with more than 15 significant digits (beyond double precision)"""
+    o = failure.get('observed') or {}
+    vals = []
+    if 'missing' in o:
+        for m in o['missing']:
+            vals.append(m[-1])
+    elif 'text' in o:
+        vals.append('num:' + str(o['text'][0]).strip())
+    elif 'values' in o:
+        vals.append('num:' + str(o['values'][0]).strip())
+    else:
+        return False
+    if not vals:
+        return False
+    for v in vals:
+        if not isinstance(v, str) or not v.startswith('num:'):
+            return False
+        digits = [c for c in v[4:] if c.isdigit()]
+        if len(''.join(digits).strip('0')) <= 15:
+            return False
+    return True
